@@ -123,8 +123,15 @@ var valVariants = []valVariant{
 	{"zero", func() *Node { return Int(0) }, "I0"},
 }
 
+// Bare-variable arguments: the argument at one position is a plain symbol whose LEXICAL binding
+// (seen from the caller) differs from the binding a dynamic look-up along the call stack would
+// find: "w" is global (7) while the function that called the caller has a formal w (8); "k" is
+// captured by the closure that makes the call (0) while a global k (50) and a formal k of the
+// caller's caller (9) exist.  Every program runs the caller from (outer 8 9 10).
 type GridCase struct {
-	Val     int // index into valVariants
+	Bare    int    // position of the bare-variable argument, -1 = none
+	BareSym string // "w" or "k"
+	Val     int    // index into valVariants
 	Caller  int // caller kind
 	Split   int // > 0: the first Split forms are a separate, earlier evaluation
 	Shape   Shape
@@ -365,7 +372,17 @@ func (gc *GridCase) Build() {
 	}
 	vv := valVariants[gc.Val%len(valVariants)]
 	variantAt := func(i int) bool { return vv.expr != nil && i < k && sh.Lazy[i] && gc.Kinds[i] == KT }
+	_, anyErr := hasErrKind(gc.Kinds)
+	bareAt := func(i int) bool { return !anyErr && gc.BareSym != "" && i == gc.Bare && i < nargs }
+	bareVal := "I7"
+	if gc.BareSym == "k" || gc.BareSym == "k2" {
+		bareVal = "I0"
+	}
 	for i, kd := range gc.Kinds {
+		if bareAt(i) {
+			args = append(args, Var(gc.BareSym))
+			continue
+		}
 		e := argExpr(kd, base, int64(10+i))
 		if variantAt(i) {
 			e.Kids = append(e.Kids, vv.expr()) // (begin (set cnt ..) (trace ..) VALUE)
@@ -417,7 +434,7 @@ func (gc *GridCase) Build() {
 		callerForms = []*Node{Defn("caller", callerParams, "", callerBody)}
 	}
 
-	forms := []*Node{Def("cnt", Int(0))}
+	forms := []*Node{Def("cnt", Int(0)), Def("w", Int(7)), Def("k", Int(50)), Def("k2", Int(60))}
 	if route == RRedef {
 		// an earlier evaluation defines f with the same arity and the opposite laziness
 		old := []string{"n"}
@@ -430,13 +447,16 @@ func (gc *GridCase) Build() {
 	forms = append(forms, fdef)
 	forms = append(forms, pre...)
 	forms = append(forms, callerForms...)
+	// the caller is run by a function whose formals are named like the variables the arguments mention
+	outerDef := Defn("outer", []string{"w", "k", "k2"}, "", CallN("caller", callerArgs...))
+	outerCall := CallN("outer", Int(8), Int(9), Int(10))
 	viaColl := route == RApply || route == RMap
 	var tailItems []*Node // observed after everything else: the caller's collection
 	if viaColl {
-		forms = append(forms, Def("both", CallN("caller", callerArgs...)), Def("res", CallN("first", Var("both"))))
+		forms = append(forms, outerDef, Def("both", outerCall), Def("res", CallN("first", Var("both"))))
 		tailItems = []*Node{CallN("first", CallN("rest", Var("both")))}
 	} else {
-		forms = append(forms, Def("res", CallN("caller", callerArgs...)))
+		forms = append(forms, outerDef, Def("res", outerCall))
 	}
 	switch {
 	case pat == PEscClos && route != RMap:
@@ -458,6 +478,9 @@ func (gc *GridCase) Build() {
 		gc.Typed = []string{"f"}
 	}
 	gc.Tags = []string{"stream:grid", "route:" + routeName[route], "pattern:" + patName[pat], "shape:" + sh.String(), "caller:" + callerKindName[gc.Caller], "argvalue:" + vv.name}
+	if gc.BareSym != "" && gc.Bare >= 0 && gc.Bare < nargs && !anyErr {
+		gc.Tags = append(gc.Tags, "barevar:"+gc.BareSym)
+	}
 	for _, kd := range gc.Kinds {
 		if kd != KT {
 			gc.Tags = append(gc.Tags, "argkind:"+kindName[kd])
@@ -468,6 +491,9 @@ func (gc *GridCase) Build() {
 	// ---- oracle
 	mk := func(i int) string { return fmt.Sprintf("I%d", 110+i) } // marker (traced effect) of outer argument i
 	val := func(i int) string { // value of outer argument i
+		if bareAt(i) {
+			return bareVal
+		}
 		if variantAt(i) {
 			return vv.render
 		}
@@ -501,7 +527,9 @@ func (gc *GridCase) Build() {
 		if !hasErr {
 			var ms []string
 			for i := 0; i < nargs; i++ {
-				ms = append(ms, mk(i))
+				if !bareAt(i) {
+					ms = append(ms, mk(i))
+				}
 			}
 			cons = append(cons, "once:"+strings.Join(ms, ","), "order:"+strings.Join(append(ms, "I99"), "<"), "noerr")
 		} else {
@@ -558,7 +586,7 @@ func (gc *GridCase) Build() {
 	var tr []string
 	cnt := 0
 	for i := 0; i < nargs; i++ {
-		if !isLazyPos(i) {
+		if !isLazyPos(i) && !bareAt(i) {
 			tr = append(tr, mk(i))
 			cnt++
 		}
@@ -603,7 +631,7 @@ func (gc *GridCase) Build() {
 	}
 	if pat.forces() {
 		for i := 0; i < k; i++ {
-			if isLazyPos(i) {
+			if isLazyPos(i) && !bareAt(i) {
 				tr = append(tr, mk(i))
 				cnt++
 			}
@@ -651,6 +679,7 @@ func EachGrid(full bool, emit func(*GridCase)) {
 	rot := 0
 	crot := 0
 	vrot := 0
+	brot := 0
 	for _, sh := range shapes {
 		k := len(sh.Lazy)
 		nargs := k
@@ -696,14 +725,28 @@ func EachGrid(full bool, emit func(*GridCase)) {
 							nargsHere = nargsHere[:2]
 						}
 					}
-					kinds := []int{crot % nCallerKinds}
+					kinds := []int{(crot + crot/3) % nCallerKinds} // (the plain rotation gave the all-trace vector of every point the same kind)
 					crot++
 					if full && vi == 0 {
 						kinds = []int{0, 1, 2}
 					}
 					for _, ck := range kinds {
-						gc := &GridCase{Shape: sh, Route: route, Pat: pat, Kinds: nargsHere, Caller: ck, Val: vrot}
+						gc := &GridCase{Shape: sh, Route: route, Pat: pat, Kinds: nargsHere, Caller: ck, Val: vrot, Bare: -1}
 						vrot++
+						// a bare-variable argument at a rotating position in two grid points of three
+						if b := brot % (len(nargsHere) + 1); vi == 0 && brot%3 != 0 && b < len(nargsHere) {
+							gc.Bare = b
+							gc.BareSym = "w"
+							if ck != 0 && brot%2 == 0 {
+								gc.BareSym = "k"
+								if ck == 2 && brot%4 == 0 {
+									gc.BareSym = "k2"
+								}
+							}
+						}
+						if vi == 0 {
+							brot++
+						}
 						gc.Build()
 						emit(gc)
 					}
